@@ -19,3 +19,5 @@ import McpModel.ClientStream.AsBuilt
 import McpModel.Sessions.Props
 import McpModel.Wire.Props
 import McpModel.Gate.Props
+import McpModel.Resume.Props
+import McpModel.Resume.Witness
